@@ -16,14 +16,14 @@ TEXT = {
  'C05': ('AST()/printers = pruned derivation tree: proved for all well-nested forests (C05Ast), incl. equal spans and zero-width tokens; tied by T-run (SprintSyntaxTree, up/next walk).', 'as C01; strconv.Quote is a parameter of the model (compared as strings in the tie)'),
  'C06': ('R is proved with the memo table present (invariant MemoOK + absorption lemma): C06_memo_invisible — the same emitted parser with memoisation and with DisableMemoize returns the same verdict, position, tokens and error token; C06_replay_exact — a hit restores exactly what a re-run would; tie: every case run with memo on and off (real vs real, vs model with the memo table, vs spec).', 'as C01'),
  'C07': ('RN_all / RNS_all: the refinement induction for parsers without AST (verdict, position, inline-action trace = reach-order trace of the attempted tokens with the last completed capture, maxToken over non-capture tokens), generalised over the parentDetect flags and covering switch nodes and rules compiled in place: C07_generated_parser (-noast), C07_inline_generated_parser (-inline -noast), C07_switch_generated_parser (-noast -switch), C07_inline_switch_generated_parser (-inline -noast -switch), each with verdict and end equal to the PEG semantics of the original grammar and to the default parser (…_same_language_as_default) under a decidable side condition that the driver evaluates on every program of the sweeps; ties: T-emit on all four -noast option sets, T-run verdict vs spec and vs the default parser, inline-action trace vs the reach-order spec (of the rewritten grammar under -switch).', 'as C01; grammars with state-change statements are outside the -noast theorems (tie only)'),
- 'C08': ('hygiene theorems about the emission (labels unique per function, dry and real pass number labels identically and print the same jumps with -switch nodes too: C08_dry_real_same_jumps_switch, C08_switch_labels_unique) + the implementation-side validity oracle on every emitted file of both sweeps (go/parser inside peg, go build = parse + type-check, gofmt idempotence) under all eight option sets, plus streams the generator cannot produce (300/1200(+) rules, imports incl. alias/grouped/duplicate of a runtime import, header comments, control and non-ASCII literals, comments and braces inside actions).',
+ 'C08': ('hygiene theorems about the emission (labels unique per function, dry and real pass number labels identically and print the same jumps with -switch nodes too: C08_dry_real_same_jumps_switch, C08_switch_labels_unique) + the implementation-side validity oracle on every emitted file of both sweeps (go/parser inside peg, go build = parse + type-check, gofmt idempotence) under all eight option sets, plus streams the generator cannot produce (300/1200(+) rules, imports incl. alias/grouped/duplicate of a runtime import, header comments, control and non-ASCII literals, comments and braces inside actions, the rule-count boundaries of the rule-constant type, a reversed range under -switch).',
          'Go type checker, go/parser, go/printer and gofmt are oracles of the tie, not modelled; no mechanised Go semantics is available offline.'),
  'C09': ('logic core proved for all schedules (Bernstein: threads with disjoint read/write footprints give a schedule-independent final state; no conflicting access), instantiated by kernel-decided disjointness of the footprints of the two analysis goroutines, which a go/ast+go/types translator re-extracts from tree/peg.go on every run (also: no map iteration, no package-level writes, no unknown constructs); dynamic validation with the race detector: concurrent Compiles, GOMAXPROCS 1/2/16, byte-identical outputs and warnings across repetitions and processes.',
          'Go memory model (DRF => SC) and WaitGroup ordering assumed; extractor soundness assumed and validated by -race runs; determinism of the sequential rest of Compile is the Lean model of Compile tied by T-emit.'),
  'C12': ('C12_reset_like_fresh / C12_history_irrelevant: R holds from any post-Reset state (arbitrary stale token buffer), so a reused parser is indistinguishable from a fresh one; tie: histories on one instance x U in {uint16,uint32,uint64,uint} x Size in {unset,1,32768} against fresh parsers, the Lean machine model run as one long-lived parser (St.reset threaded) against the real steps, every third T-run case of the core sweep as a second use of its parser, plus the uint16 width probe (former finding F-C12-1, fixed).',
          'integers are unbounded in the model (width is the known finding); slice capacity/growth invisible in the model (covered by the tie).'),
- 'C13': ('C13_no_panic / C13_token_slices from R: no run ends in the panic outcome and all offsets are inside the rune sequence; C13_every_buffer_is_admissible: the Lean model of Go\'s []rune(string) decoding never yields the end symbol for ANY byte string (so R applies to every Buffer) and is no longer than the byte string; tie: byte-level inputs (invalid UTF-8, NUL, non-BMP, U+10FFFF, 90000 runes) on generated grammars (real vs model vs spec) and on the shipped grammars (no panic, offsets in range).',
-         'as C01; for shipped grammars only the no-panic/offset oracle runs (their actions are arbitrary Go).'),
+ 'C13': ('C13_no_panic / C13_token_slices from R: no run ends in the panic outcome and all offsets are inside the rune sequence; C13_every_buffer_is_admissible: the Lean model of Go\'s []rune(string) decoding never yields the end symbol for ANY byte string (so R applies to every Buffer) and is no longer than the byte string; tie: byte-level inputs (invalid UTF-8, NUL, non-BMP, U+10FFFF, 90000 runes) on generated grammars (real vs model vs spec) extreme ranges reaching U+10FFFF, every input also as the second use of a parser that parsed a longer text; and on the shipped grammars peg, calculator, C, Java, fexl (default and -inline -switch): no panic, offsets in range, and — they contain no predicates — real vs Lean model vs PEG semantics on verdict, tokens, tree and error.',
+         'as C01; the actions of the shipped grammars are arbitrary Go, so no action trace is compared for them.'),
  'C14': ('product non-interference proved for all schedules and any number of instances (a step of instance i touches only component i), instantiated by kernel-decided facts re-extracted from generated code on every run (only package-level variable is the rul3s name table, never written; no goroutines); dynamic validation: 32 concurrent instances under the race detector equal sequential results.',
          'as C09; callers are assumed not to share receivers or user fields between instances.'),
  'C16': ('Lean model of set.go transcribed case by case (sentinels, seven-way insertion); for every sequence of in-domain insertions: invariant, Has/Len/Copy/Union/Intersects/Complement/Equal/String equal the set-of-integers meaning, no panic; tie: exhaustive small sequences + random long ones, structural dumps and all query results compared with the real package, operands checked for mutation.',
